@@ -6,7 +6,7 @@ from multiprocessing import Pool
 from typing import Any, Union
 from warnings import warn
 
-from numpy import floating, integer, isfinite, isnan, nan, select
+from numpy import floating, integer, isfinite, nan, select
 from pandas import DataFrame, Series, isna, notna, unique
 from sklearn.base import BaseEstimator, TransformerMixin
 
@@ -773,10 +773,10 @@ class BaseDiscretizer(BaseEstimator, TransformerMixin):
         assert mode in ["group", "replace"], " - [Discretizer] Choose mode in ['group', 'replace']"
 
         # checking for nans
-        if isnan(discarded_value):
+        if isna(discarded_value):
             discarded_value = self.str_nan
             self.features_dropna[feature] = True
-        assert not isnan(
+        assert not isna(
             kept_value
         ), " - [Discretizer] missing values can only be grouped with an existing modality"
 
